@@ -283,7 +283,7 @@ func cmdDump(args []string) int {
 			}
 			fmt.Printf(" %s %-10s %-8s %5.2fs %s   [%s]\n", mark, st, sv, secs, o.Name, o.Pos)
 			if mark == "!" && o.Model != "" && !o.Cover {
-				fmt.Printf("      clause: %s\n      model: %s\n", o.Clause, strings.ReplaceAll(o.Model, "\n", " "))
+				fmt.Printf("      clause: %s\n      model: %s\n", o.Clause, truncStr(strings.ReplaceAll(o.Model, "\n", " "), 600))
 			} else if mark == "!" {
 				fmt.Printf("      clause: %s\n", o.Clause)
 			}
@@ -296,6 +296,13 @@ func cmdDump(args []string) int {
 }
 
 func litDefs() string { return "" }
+
+func truncStr(s string, n int) string {
+	if len(s) > n {
+		return s[:n] + " ..."
+	}
+	return s
+}
 
 // litDefsFor declares the string literals that occur in the given query text (in content order).
 func litDefsFor(body string) string {
